@@ -28,6 +28,7 @@ MODULE_KINDS = [
     "generic interface",
     "abstract interface",
     "operator interface",
+    "relational operator interface",
     "generic interface of bodies",
     "type with constructor",
     "enumerator",
@@ -58,8 +59,15 @@ def expected(default, attr, stmt, kind):
     return access
 
 
-def refname(kind, n, upper=False, blank=False):
-    r = (f"operator (.o{n}.)" if blank else f"operator(.o{n}.)") if kind == "operator interface" else f"e{n}"
+# an intrinsic relational operator has two spellings that name the same generic: `==` and `.eq.`, ...
+REL = {1: ("==", ".eq."), 2: ("/=", ".ne."), 3: ("<", ".lt."), 4: ("<=", ".le."), 5: (">", ".gt."), 6: (">=", ".ge.")}
+
+
+def refname(kind, n, upper=False, blank=False, word=False):
+    if kind == "relational operator interface":
+        r = f"operator({REL[n][1 if word else 0]})"
+    else:
+        r = (f"operator (.o{n}.)" if blank else f"operator(.o{n}.)") if kind == "operator interface" else f"e{n}"
     return r.upper() if upper else r
 
 
@@ -102,6 +110,12 @@ def entity_lines(kind, n, attr, case=0):
             ["abstract interface", f"  subroutine {name}(a)", "    integer :: a", f"  end subroutine {name}", "end interface"],
             [],
         )
+    if kind == "relational operator interface":
+        # case 7: the interface statement uses the word form (the access statement the symbol), case 6 the other way round
+        return (
+            [f"type :: rt{n}", "  integer :: q", f"end type rt{n}", f"interface operator({REL[n][1 if case == 7 else 0]})", f"  module procedure relimpl{n}", "end interface"],
+            [f"logical function relimpl{n}(a, b)", f"  type(rt{n}), intent(in) :: a, b", f"  relimpl{n} = a%q == b%q", f"end function relimpl{n}"],
+        )
     if kind == "operator interface":
         return (
             [f"interface operator{' ' if case == 4 else ''}(.{O}{n}.)", f"  module procedure opimpl{n}", "end interface"],
@@ -122,7 +136,7 @@ def module_source(default, default_pos, ents, context=0, modname="m"):
     for n, (kind, attr, stmt, stmt_pos, *rest) in enumerate(ents, 1):
         case = rest[0] if rest else 0
         s, c = entity_lines(kind, n, attr, case)
-        ref = f"gb{n}" if (case == 5 and kind == "generic interface of bodies") else refname(kind, n, upper=(case == 2), blank=(case == 3))
+        ref = f"gb{n}" if (case == 5 and kind == "generic interface of bodies") else refname(kind, n, upper=(case == 2), blank=(case == 3), word=(case == 6))
         line = f"{stmt} :: {ref}" + (sep + f"integer :: semi_v{n}" if sep else "")
         if stmt != "none" and stmt_pos == "before":
             spec.append(line)
@@ -159,8 +173,11 @@ def find_entity(mod, kind, n):
         "generic interface": "interfaces",
         "generic interface of bodies": "interfaces",
         "operator interface": "interfaces",
+        "relational operator interface": "interfaces",
         "abstract interface": "absinterfaces",
     }[kind]
+    if kind == "relational operator interface":
+        return [e for e in mod.interfaces if (e.name or "").lower().replace(" ", "") in (f"operator({REL[n][0]})", f"operator({REL[n][1]})")]
     if kind == "enumerator":
         return [v for en in mod.enums for v in en.variables if (v.name or "").lower() == name]
     found = [e for e in getattr(mod, coll) if (e.name or "").lower() == name]
@@ -255,6 +272,9 @@ def single_configs(kind):
             if kind == "generic interface of bodies" and stmt in ("public", "private"):
                 # 5: the access statement names the specific procedure declared by the interface body, not the generic
                 yield (kind, attr, stmt, stmt_pos, 5)
+            if kind == "relational operator interface" and stmt != "none":
+                yield (kind, attr, stmt, stmt_pos, 6)
+                yield (kind, attr, stmt, stmt_pos, 7)
             if kind == "operator interface" and stmt != "none":
                 # 3: the access statement writes `operator (.x.)`, 4: the interface statement does
                 yield (kind, attr, stmt, stmt_pos, 3)
